@@ -1,5 +1,5 @@
 """property -> rules"""
-from . import rules_dd
+from . import rules_dd, rules_bounds
 
 CLANG = "clang 14 parser, constant evaluator and CFG builder (via tools/h4x.cc)"
 CDB = "compile flags taken from ninja -t compdb of /repo/_build (or a throw-away cmake configure)"
@@ -42,6 +42,16 @@ PROPS["C17"] = {
                   "crash safety for adding sessions, decided for every path and both cache modes rather than for sampled crash points.",
     "level_note": "Trusted: clang front end/CFG, build flags. Decides placement/ordering structure, not the byte images at each crash point.",
     "technique": "typestate dataflow + reaching-definition provenance + who-may-write over clang CFGs",
+}
+
+PROPS["C02"] = {
+    "rules": [rules_bounds.rule_F2_arrays, rules_dd.rule_F3, rules_dd.rule_F11b, rules_dd.rule_F11c],
+    "level": "other",
+    "explanation": "TODO",
+    "rule_text": "TODO",
+    "trusted": [CLANG, CDB],
+    "assumptions": [],
+    "level_text": "TODO", "level_note": "TODO", "technique": "TODO",
 }
 
 NOT_APPLICABLE = {
